@@ -11,6 +11,14 @@
 // every one of them is evaluated by the Coq oracle.  The case runs in a child process: a data-race report
 // (-race build, exit code 66), an unrecoverable runtime error ("concurrent map writes") or a hang is the
 // outcome of that case.
+//
+// TIMED cases (StressCase.Timed; the "scan" stream: goroutines that Range / ToArray / ForEach / Load while others
+// store and delete the same few keys): every operation takes a ticket from ONE atomic counter before its call and
+// another one after it returned, so "res(a) < inv(b)" implies that a returned before b was invoked.  The tickets
+// make every round a different observation; a round is reported (a) if it is among the Emit rounds in which the most
+// full scans overlapped a write or delete (in tickets: the goroutines really ran at the same time) or (b) if the
+// driver's own copy of the provenance / completeness conditions (Model/ScanCheck.v) flags it - that copy only
+// SELECTS rounds for the Coq oracle, it never decides anything.
 package main
 
 import (
@@ -50,6 +58,8 @@ type SRes struct {
 	F bool     `json:"f,omitempty"`
 	V int      `json:"v,omitempty"`
 	P [][2]int `json:"p,omitempty"`
+	I int      `json:"i,omitempty"` // timed cases: ticket taken before the call
+	R int      `json:"r,omitempty"` // timed cases: ticket taken after the return
 
 	ptrs []*component_definition.Meta // reg: the definitions behind V / P (identity is checked after the join)
 }
@@ -62,6 +72,8 @@ type StressCase struct {
 	Progs  [][]SOp  `json:"progs"` // one list per goroutine
 	Fin    []SOp    `json:"fin"`   // sequential coda after the join
 	Rounds int      `json:"rounds"`
+	Timed  bool     `json:"timed"` // take tickets around every operation
+	Emit   int      `json:"emit"`  // timed: report the Emit most contended rounds (and the rounds the pre-screen flags)
 }
 
 type StressObs struct {
@@ -69,6 +81,11 @@ type StressObs struct {
 	Final [][2]int `json:"final"`
 	Fin   []SRes   `json:"fin"`
 	Count int      `json:"count"`
+	// timed cases: tickets of the final contents scan; whether the driver's pre-screen flagged the round
+	FinalI  int  `json:"final_i,omitempty"`
+	FinalR  int  `json:"final_r,omitempty"`
+	Flagged bool `json:"flagged,omitempty"`
+	Overlap int  `json:"overlap,omitempty"` // full scans that overlapped a write / delete of another goroutine (tickets)
 }
 
 type StressOut struct {
@@ -77,6 +94,8 @@ type StressOut struct {
 	Report  string      `json:"report"`
 	Rounds  int         `json:"rounds"`
 	Obs     []StressObs `json:"obs"`
+	Flagged int         `json:"flagged"` // timed: rounds the pre-screen flagged (all rounds, reported or not)
+	Overlap int         `json:"overlap"` // timed: rounds in which some full scan overlapped a write / delete
 }
 
 type stressTarget interface {
@@ -355,6 +374,7 @@ func runStressRound(c StressCase) (obs StressObs, panicked string) {
 	obs.Runs = make([][]SRes, G)
 	panics := make([]string, G)
 	var ready, goFlag int32
+	var ticket int64 // timed cases; the contents at the start have the tickets 0
 	var wg sync.WaitGroup
 	for g := 0; g < G; g++ {
 		wg.Add(1)
@@ -370,6 +390,15 @@ func runStressRound(c StressCase) (obs StressObs, panicked string) {
 				}
 			}
 			panics[g] = hx.Guard(func() {
+				if c.Timed {
+					for _, o := range prog {
+						i := atomic.AddInt64(&ticket, 1)
+						r := tg.do(o)
+						r.I, r.R = int(i), int(atomic.AddInt64(&ticket, 1))
+						res = append(res, r)
+					}
+					return
+				}
 				for _, o := range prog {
 					res = append(res, tg.do(o))
 				}
@@ -388,7 +417,12 @@ func runStressRound(c StressCase) (obs StressObs, panicked string) {
 		}
 	}
 	panicked = hx.Guard(func() {
+		obs.FinalI = int(atomic.AddInt64(&ticket, 1))
 		obs.Final = tg.contents()
+		obs.FinalR = int(atomic.AddInt64(&ticket, 1))
+		if !c.Timed {
+			obs.FinalI, obs.FinalR = 0, 0
+		}
 		obs.Fin = make([]SRes, 0, len(c.Fin))
 		for _, o := range c.Fin {
 			obs.Fin = append(obs.Fin, tg.do(o))
@@ -407,12 +441,41 @@ func runStressCase(c StressCase) (out StressOut) {
 		rounds = 1
 	}
 	seen := map[string]int{}
+	var best []StressObs // timed: the Emit most contended rounds so far, most contended first
+	defer func() {
+		if c.Timed && out.Outcome == "ok" {
+			out.Obs = append(best, out.Obs...)
+		}
+	}()
 	for r := 0; r < rounds; r++ {
 		obs, p := runStressRound(c)
 		out.Rounds++
 		if p != "" {
 			out.Outcome, out.Report = "panic", p
 			return
+		}
+		if c.Timed {
+			obs.Flagged = timedSuspicious(c, obs)
+			if obs.Flagged {
+				out.Flagged++
+			}
+			obs.Overlap = timedOverlap(c, obs)
+			if obs.Overlap > 0 {
+				out.Overlap++
+			}
+			obs.Count = 1
+			if obs.Flagged {
+				if out.Flagged <= 2 {
+					out.Obs = append(out.Obs, obs)
+				}
+				continue
+			}
+			best = append(best, obs)
+			sort.SliceStable(best, func(i, j int) bool { return best[i].Overlap > best[j].Overlap })
+			if len(best) > c.Emit {
+				best = best[:c.Emit]
+			}
+			continue
 		}
 		data, _ := json.Marshal(obs)
 		if i, ok := seen[string(data)]; ok {
@@ -424,6 +487,170 @@ func runStressCase(c StressCase) (out StressOut) {
 		out.Obs = append(out.Obs, obs)
 	}
 	return
+}
+
+// ---- timed cases: selection of rounds -------------------------------------------------------------------
+//
+// A copy of Model/ScanCheck.v (pair_ok / stable_w) used ONLY to pick the rounds worth sending to the Coq oracle
+// among hundreds: a round it flags is evaluated by scan_check like any other, a round it misses is simply not
+// selected (the first Emit rounds are always evaluated).
+
+// timedOverlap counts the full scans of a round whose interval overlaps a write / delete of another goroutine.
+func timedOverlap(c StressCase, obs StressObs) (n int) {
+	type iv struct{ g, i, r int }
+	var muts, scans []iv
+	for g, prog := range c.Progs {
+		for i, o := range prog {
+			if i >= len(obs.Runs[g]) {
+				break
+			}
+			r := obs.Runs[g][i]
+			switch o.Op {
+			case "store", "put", "delete", "remove":
+				muts = append(muts, iv{g, r.I, r.R})
+			case "los", "losf":
+				if !r.F {
+					muts = append(muts, iv{g, r.I, r.R})
+				}
+			case "range", "toarray", "foreach":
+				scans = append(scans, iv{g, r.I, r.R})
+			}
+		}
+	}
+	for _, s := range scans {
+		for _, m := range muts {
+			if m.g != s.g && !(s.r < m.i) && !(m.r < s.i) {
+				n++
+				break
+			}
+		}
+	}
+	return
+}
+
+type tEff struct {
+	k, v     int
+	del      bool
+	inv, res int
+}
+
+func timedSuspicious(c StressCase, obs StressObs) bool {
+	byKey := map[int][]tEff{}
+	add := func(e tEff) { byKey[e.k] = append(byKey[e.k], e) }
+	for _, p := range c.Init {
+		add(tEff{k: p[0], v: p[1]})
+	}
+	for g, prog := range c.Progs {
+		for i, o := range prog {
+			if i >= len(obs.Runs[g]) {
+				break
+			}
+			r := obs.Runs[g][i]
+			switch o.Op {
+			case "store":
+				add(tEff{k: o.K, v: o.V, inv: r.I, res: r.R})
+			case "put":
+				add(tEff{k: o.K, inv: r.I, res: r.R})
+			case "los", "losf":
+				if !r.F {
+					add(tEff{k: o.K, v: o.V, inv: r.I, res: r.R})
+				}
+			case "delete", "remove":
+				add(tEff{k: o.K, del: true, inv: r.I, res: r.R})
+			}
+		}
+	}
+	pairOK := func(k, v, inv, res int) bool {
+		for _, w := range byKey[k] {
+			if w.del || w.v != v || res < w.inv {
+				continue
+			}
+			over := false
+			for _, u := range byKey[k] {
+				if w.res < u.inv && u.res < inv {
+					over = true
+					break
+				}
+			}
+			if !over {
+				return true
+			}
+		}
+		return false
+	}
+	complete := func(keys []int, pairs [][2]int, inv, res int) bool {
+		for _, k := range keys {
+			for _, w := range byKey[k] {
+				if w.del || !(w.res < inv) {
+					continue
+				}
+				stable := true
+				for _, u := range byKey[k] {
+					if !(u.res < w.inv || res < u.inv || (!u.del && u.v == w.v)) {
+						stable = false
+						break
+					}
+				}
+				if !stable {
+					continue
+				}
+				found := false
+				for _, p := range pairs {
+					if p[0] == k && p[1] == w.v {
+						found = true
+					}
+				}
+				if !found {
+					return false
+				}
+			}
+		}
+		return true
+	}
+	all := make([]int, c.NKeys)
+	for k := range all {
+		all[k] = k
+	}
+	check := func(o SOp, r SRes) bool {
+		var pairs [][2]int
+		var keys []int
+		full := true
+		switch o.Op {
+		case "range", "toarray", "foreach":
+			pairs, keys = r.P, all
+		case "rangestop":
+			pairs, full = r.P, false
+		case "load", "exists":
+			keys = []int{o.K}
+			if r.F {
+				pairs = [][2]int{{o.K, r.V}}
+			}
+		case "los", "losf":
+			if !r.F {
+				return true
+			}
+			pairs, keys = [][2]int{{o.K, r.V}}, []int{o.K}
+		default:
+			return true
+		}
+		for i, p := range pairs {
+			if i > 0 && pairs[i-1][0] >= p[0] {
+				return false
+			}
+			if !pairOK(p[0], p[1], r.I, r.R) {
+				return false
+			}
+		}
+		return !full || complete(keys, pairs, r.I, r.R)
+	}
+	for g, prog := range c.Progs {
+		for i, o := range prog {
+			if i < len(obs.Runs[g]) && !check(o, obs.Runs[g][i]) {
+				return true
+			}
+		}
+	}
+	return !check(SOp{Op: "range"}, SRes{P: obs.Final, I: obs.FinalI, R: obs.FinalR})
 }
 
 // ---- parent ------------------------------------------------------------------------------------------
